@@ -653,6 +653,14 @@ func checkQueues(queue *QueueConfig, level int) error {
 		return err
 	}
 
+	// check the child template resources (if defined): the queue loader fails on quantities it cannot parse
+	if _, err = resources.NewResourceFromConf(queue.ChildTemplate.Resources.Max); err != nil {
+		return err
+	}
+	if _, err = resources.NewResourceFromConf(queue.ChildTemplate.Resources.Guaranteed); err != nil {
+		return err
+	}
+
 	// check this level for name compliance and uniqueness
 	queueMap := make(map[string]bool)
 	for _, child := range queue.Queues {
